@@ -2,6 +2,7 @@
 from __future__ import annotations
 
 import itertools
+import json
 import os
 from contextlib import contextmanager
 
@@ -74,6 +75,9 @@ class Ctx:
                 del c._refine
 
 
+_NATURAL_MEMO = {}
+
+
 class _NoRec:
     def __getattr__(self, name):
         return lambda *a, **k: None
@@ -86,23 +90,38 @@ def guarded(inner):
     such a failure depends on the allocator state and does not replay)."""
 
     def body(case, rec):
-        ctx = Ctx()
-        try:
-            inner(case, rec, ctx)
-        except Violation as v:
-            if ctx.reuse and v.clause in CANON_CLAUSES:
+        # A failure that depends on the allocator state does not recur on demand, and Hypothesis re-executes failing
+        # examples (it would report the sub-check as flaky): within one worker process the first verdict on a case
+        # stands.  All raises happen outside `except` blocks so that the exception origin is stable.
+        memo_key = json.dumps(case, sort_keys=True, default=str)
+        natural = _NATURAL_MEMO.get(memo_key)
+        plain = None
+        if natural is None:
+            ctx = Ctx()
+            try:
+                inner(case, rec, ctx)
+            except Violation as v:
+                plain = v
+            if plain is None:
+                if ctx.reuse:
+                    rec.label("natural-id-reuse-observed(harmless)")
+                return
+            if ctx.reuse and plain.clause in CANON_CLAUSES:
+                again = None
                 try:
                     inner(case, _NoRec(), Ctx(unique=True))
-                except Violation:
-                    raise v from None
-                raise Violation(
-                    v.clause + NATURAL,
-                    v.message + " [in this run CPython reused a freed address for the refinement cache key inside one "
-                    "_refine call; the same case is quiet when id() never repeats a value]",
-                ) from None
-            raise
-        if ctx.reuse:
-            rec.label("natural-id-reuse-observed(harmless)")
+                except Violation as v2:
+                    again = v2
+                if again is None:
+                    natural = _NATURAL_MEMO[memo_key] = (
+                        plain.clause + NATURAL,
+                        plain.message + " [in this run CPython reused a freed address for the refinement cache key "
+                        "inside one _refine call; the same case is quiet when id() never repeats a value; depends on "
+                        "the allocator state, so the replay file normally does not reproduce it - see sub-check faultinj]",
+                    )
+        if natural is not None:
+            raise Violation(*natural)
+        raise Violation(plain.clause, plain.message)
 
     body.__doc__ = inner.__doc__
     return body
@@ -599,6 +618,21 @@ def body_wl(case, rec):
     rec.label("cfg=" + cfg_tag(cfg), "wl-exact" if len(cells) == len(iso.orbits_from(auts, list(G.nodes))) else "wl-coarser")
     rec.nt(len(auts) > 1)
     rec.show(dict(cfg=cfg_tag(cfg), reactions=crn_gen.rx_str({"rx": rx}), cells=len(cells), aut=len(auts)))
+
+
+# ----------------------------------------------------------------------------------------------------
+# known finding: attribution predicate
+# ----------------------------------------------------------------------------------------------------
+def id_reuse_defect(case, v, m):
+    """True iff the violation is attributed to the recorded defect 'results of CRNCanonicalizer depend on whether the
+    address of a freed temporary is reused' (call site CRNCanonicalizer._refine, cache keyed by id() of a temporary):
+    either the fault-injection sub-check (clauses id-reuse-*), or a clause of CRNCanonicalizer that failed in a run in
+    which a real address reuse inside one _refine call was observed AND that is quiet when id() never repeats a value
+    (both established in the body before the clause gets the suffix)."""
+    return v.clause.startswith("id-reuse-") or v.clause.endswith(NATURAL)
+
+
+KNOWN_PREDICATES = {"id_reuse_defect": id_reuse_defect}
 
 
 # ----------------------------------------------------------------------------------------------------
